@@ -147,7 +147,7 @@ def coverage(pid, tm):
 
 
 # ---------------------------------------------------------------------------
-@prop('C03', ['Tree', 'DecorAbs', 'DecorType', 'DecorFCard', 'TreeCtc'], naming_matters=False,
+@prop('C03', ['Tree', 'DecorAbs', 'DecorType', 'DecorFCard', 'TreeCtc', 'Mix', 'Ctc3', 'Wide'], naming_matters=False,
       assumptions=['models are built through Feature/Relation/add_relation/ctcs.append, as in the readers'])
 def script_c03(case, naming, tier, seed):
     b = Builder(naming, log=True)
@@ -184,9 +184,9 @@ def ops_script(ops):
 
 SEM_ASSUME = ['Boolean models; constraints purely propositional over feature names',
               'exact counts are brute force over all 2^n selections, n <= family bound']
-prop('C13', ['Tree', 'TreeStar', 'TreeCtc', 'Big'], naming_matters=False, assumptions=SEM_ASSUME)(ops_script(['estimate']))
-prop('C14', ['Tree', 'TreeStar', 'TreeCtc', 'Big'], naming_matters=False, assumptions=SEM_ASSUME)(ops_script(['core']))
-prop('C15', ['Tree', 'TreeStar', 'TreeCtc', 'Big'], naming_matters=False, assumptions=SEM_ASSUME)(ops_script(['atomic']))
+prop('C13', ['Tree', 'TreeStar', 'TreeCtc', 'Big', 'Wide', 'Chain', 'Ctc3'], naming_matters=False, assumptions=SEM_ASSUME)(ops_script(['estimate']))
+prop('C14', ['Tree', 'TreeStar', 'TreeCtc', 'Big', 'Wide', 'Chain', 'Ctc3'], naming_matters=False, assumptions=SEM_ASSUME)(ops_script(['core']))
+prop('C15', ['Tree', 'TreeStar', 'TreeCtc', 'Big', 'Wide', 'Chain', 'Ctc3'], naming_matters=False, assumptions=SEM_ASSUME)(ops_script(['atomic']))
 C16_OPS = ['leaves', 'count_leaves', 'depth', 'abf', 'varpoints', 'ancestors']
 
 
@@ -226,6 +226,18 @@ def script_c16(case, naming, tier, seed):
 
 
 # ---------------------------------------------------------------------------
+@prop('C18', ['Ast', 'AstDeep', 'AstNNF'], name_classes=('casepair',), naming_matters=True, name_stride={'quick': 8, 'thorough': 2},
+      assumptions=['equivalence is decided by complete truth tables over the atoms of the tree'])
+def script_c18(case, naming, tier, seed):
+    from flamapy.core.models.ast import AST
+    from flamapy.metamodels.fm_metamodel.models import Constraint
+    from build import build_node
+    ctc = Constraint('c1', AST(build_node(case['ast'], naming)))
+    ret = observe.classify(ctc, naming)
+    return [{'a': 'Classify', 'args': {'ast': case['ast']}, 'out': 'value', 'ret': ret}], {'ast': case['ast']}
+
+
+# ---------------------------------------------------------------------------
 METRIC_METHODS = [
     'features', 'abstract_features', 'concrete_features', 'leaf_features', 'compound_features',
     'concrete_compound_features', 'concrete_leaf_features', 'abstract_compound_features',
@@ -239,7 +251,7 @@ METRIC_METHODS = [
     'extra_constraint_representativeness']
 
 
-@prop('C17', ['Tree', 'DecorAbs', 'TreeCtc'], name_classes=('substr',), naming_matters=True, name_stride={'quick': 5, 'thorough': 2},
+@prop('C17', ['Tree', 'DecorAbs', 'TreeCtc', 'Mix', 'Ctc3', 'Wide', 'Chain'], name_classes=('substr',), naming_matters=True, name_stride={'quick': 5, 'thorough': 2},
       assumptions=['constraint listings are compared with the per-constraint predicates of the model (judged by C18)'])
 def script_c17(case, naming, tier, seed):
     b, ev = load_event(case, naming)
@@ -288,6 +300,14 @@ def prepare_hist(cases, tier, seed):
                 break
         else:
             raise RuntimeError('no pool model for pick %d' % len(pool))
+    # pool models 8..10: models 2..4 after an in-place edit (one more optional child under the root)
+    for base in pool[1:4]:
+        m = base['model']
+        new = 'f%d' % (len(m['feats']) + 1)
+        feat = {'name': new, 'par': m['root'], 'abs': False, 'ftype': 'Boolean', 'fclo': 1, 'fchi': 1, 'attrs': []}
+        rel = {'owner': m['root'], 'pp': m['root'], 'kids': [new], 'lo': 0, 'hi': 1}
+        pool.append({'hist': base['hist'] + [{'a': 'AddRelation', 'o': m['root'], 'kids': [new], 'lo': 0, 'hi': 1}],
+                     'model': dict(m, feats=m['feats'] + [feat], rels=m['rels'] + [rel]), 'edit_of': pool.index(base) + 1})
     # isolated baselines: one fresh interpreter per pool model
     iod = os.environ.get('VERIF_IODIR', '/verif/.work/io')
     os.makedirs(iod, exist_ok=True)
@@ -353,9 +373,26 @@ def script_c19(case, naming, tier, seed):
     shared = observe.new_op(op)                              # the history on ONE object
     other_kind = 'atomic' if op != 'atomic' else 'core'
     other = observe.new_op(other_kind)
+    live = {}                                                # model objects analysed so far in the history
     for k, i in enumerate(case['seq']):
-        b, ev = built[i]
-        events.append(dict(ev))
+        base = pool[i - 1].get('edit_of')
+        if base and base in live:
+            # the SAME model object that was analysed before, edited in place
+            b = live[base]
+            h = pool[i - 1]['hist'][-1]
+            b.step(h)
+            from project import project
+            post, anom = project(b.model, naming)
+            ev = {'a': 'Load', 'args': {'model': pool[i - 1]['model']}, 'out': 'value', 'post': post, 'anom': anom}
+            live[i] = b
+            del live[base]
+        elif i in live:
+            b = live[i]
+            ev = dict(built[i][1])
+        else:
+            b, ev = load_event(pool[i - 1], naming)
+            live[i] = b
+        events.append(ev)
         events.append(_exec_any(other, 2, other_kind, b.model, naming, b, k + 1))
         events.append(_exec_any(shared, 1, op, b.model, naming, b, k + 1))
     return events, None
@@ -521,11 +558,11 @@ def export_script(langs):
     return script
 
 
-prop('C10', ['Tree', 'TreeCtc', 'Clafer-Ctc2', 'Deep-Ctc'], naming_matters=False,
+prop('C10', ['Tree', 'TreeCtc', 'Clafer-Ctc2', 'Deep-Ctc', 'Wide', 'Ctc3'], naming_matters=False,
      assumptions=['the .exp precedence is not < and < or < -> < <->, binary connectives left-associative',
                   'SXFM identifiers may be bare words or double-quoted strings'],
      trusted=['harness/parse_export.py (syntax of SXFM and .exp only)'])(export_script(['splot', 'pl']))
-prop('C11', ['Clafer-Tree', 'Clafer-Ctc', 'Clafer-Ctc2', 'Deep-Ctc', 'Clafer-Attr'], name_classes=('space', 'punct', 'opword', 'dot'), naming_matters=True,
+prop('C11', ['Clafer-Tree', 'Clafer-Ctc', 'Clafer-Ctc2', 'Deep-Ctc', 'Clafer-Attr', 'Wide', 'Ctc3'], name_classes=('space', 'punct', 'opword', 'dot'), naming_matters=True,
      attr_names_too=True,
      assumptions=['both ! and not are accepted as Clafer negation', 'identifiers may be bare words or double-quoted strings'],
      trusted=['harness/parse_export.py (syntax of the Clafer subset only)'])(export_script(['clafer']))
@@ -761,5 +798,5 @@ def script_c02(case, naming, tier, seed):
     return script_c09(case, naming, tier, seed)
 
 
-prop('C16', ['Tree', 'TreeStar', 'DecorAbs', 'Big'], naming_matters=False, prepare=prepare_c16,
+prop('C16', ['Tree', 'TreeStar', 'DecorAbs', 'Big', 'Wide', 'Chain'], naming_matters=False, prepare=prepare_c16,
      assumptions=['corpus models above the TLC size bound are judged on the mutual agreement of scalar results only'])(script_c16)
